@@ -1,7 +1,7 @@
 (* C12 proofs, part D: all event lists on one ThrottleList (accounting, no internal_error, rate
    bound), tick arithmetic, system-level facts and computed witnesses. *)
 From Coq Require Import List NArith Bool Lia PeanoNat.
-From LTV.C12 Require Import ParamsGen.
+From LTV.C12 Require Import ParamsGen PolicyGen.
 From LTV.C12 Require Import Model ProofsA ProofsB ProofsC.
 Import ListNotations.
 Local Open Scope N_scope.
@@ -112,8 +112,8 @@ Lemma tick_grant count r q : r <> 0 ->
 Proof.
   intros Hr0. unfold need_of, tick_fraction, fraction_base.
   destruct (N.eqb_spec r 0) as [|_]; [contradiction|].
-  pose proof params_ok_now as P. unfold params_ok in P. repeat (apply andb_prop in P as [P ?]).
-  match goal with H : (Params.throttle_fraction_bits =? 16) = true |- _ => apply N.eqb_eq in H; rewrite H end.
+  pose proof params_ok_now as P. unfold params_ok in P. do 7 (apply andb_prop in P as [P ?]).
+  match goal with H : (Policy.fraction_bits =? 16) = true |- _ => apply N.eqb_eq in H; rewrite H end.
   change (2 ^ 16) with 65536.
   set (F := ((count * 65536) mod w64 / 1000000) mod w32).
   assert (HF : F * 1000000 <= count * 65536).
@@ -150,7 +150,7 @@ Definition valid_opb (x : st) (o : op) : bool :=
   | OUsed _ _ n | OUnthr _ n => n <? w32
   | OSetRate O v => if mrate x =? 0 then tick_quota 1000000 v <=? Qmax else true
   | OSetRate (S _) _ => true
-  | OTick dt => enabled (rtl x) && (last_tick x + Params.throttle_tick_min_interval_ms * 1000 <=? now x + dt) &&
+  | OTick dt => enabled (rtl x) && (last_tick x + Policy.tick_min_us <=? now x + dt) &&
                 (tick_quota (now x + dt - last_tick x) (mrate x) <=? Qmax)
   | OQuota _ _ | ODeact _ _ => false
   end.
